@@ -2454,13 +2454,18 @@ class Controller:
         return hci.HCI_StatusReturnParameters(hci.HCI_ErrorCode.SUCCESS)
 
     def on_hci_le_read_local_p_256_public_key_command(
-        self, _command: hci.HCI_LE_Read_Local_P_256_Public_Key_Command
-    ) -> hci.HCI_StatusReturnParameters:
+        self, command: hci.HCI_LE_Read_Local_P_256_Public_Key_Command
+    ) -> None:
         '''
         See Bluetooth spec Vol 4, Part E - 7.8.36 LE Read P-256 Public Key Command
         '''
         # TODO create key and send hci.HCI_LE_Read_Local_P-256_Public_Key_Complete event
-        return hci.HCI_StatusReturnParameters(hci.HCI_ErrorCode.SUCCESS)
+        # This is an asynchronous command: it is answered with a Command Status
+        # event. Until the key generation is implemented, report it as unsupported.
+        self._send_hci_command_status(
+            hci.HCI_ErrorCode.UNKNOWN_HCI_COMMAND_ERROR, command.op_code
+        )
+        return None
 
     def on_hci_le_add_device_to_resolving_list_command(
         self, _command: hci.HCI_LE_Add_Device_To_Resolving_List_Command
